@@ -150,10 +150,36 @@ def constants_snapshot():
         for name, cls in sorted(vars(mod).items()):
             if isinstance(cls, type) and getattr(cls, '__module__', '').startswith('kernpy'):
                 for an, av in sorted(vars(cls).items()):
-                    if an.startswith('__') or callable(av) or isinstance(av, (classmethod, staticmethod, property)):
+                    if an.startswith('_') or callable(av) or isinstance(av, (classmethod, staticmethod, property)):
                         continue
                     if an == 'NextID' or isinstance(av, enum.Enum):
                         continue
                     if isinstance(av, (list, dict, set, str, int, float, tuple, frozenset)):
                         snap[f'{cls.__module__}.{cls.__qualname__}.{an}'] = _val(av)
     return snap
+
+
+def subsumes(old, new, path=''):
+    """Is everything recorded in ``old`` still there, unchanged, in ``new``?  Keys/attributes that exist only in ``new`` are
+    ignored: an attribute that did not exist when the snapshot was taken (a memo added by a later call) is not an
+    API-visible change of what was there - a wrong result caused by it is the result oracles' business.
+    Returns None if subsumed, else a short description of the first difference."""
+    if isinstance(old, dict) and isinstance(new, dict):
+        for k, v in old.items():
+            if k not in new:
+                return f'{path}.{k}: removed'
+            d = subsumes(v, new[k], f'{path}.{k}')
+            if d:
+                return d
+        return None
+    if isinstance(old, list) and isinstance(new, list):
+        if len(old) != len(new):
+            return f'{path}: length {len(old)} -> {len(new)}'
+        for i, (a, b) in enumerate(zip(old, new)):
+            d = subsumes(a, b, f'{path}[{i}]')
+            if d:
+                return d
+        return None
+    if old != new:
+        return f'{path}: {str(old)[:80]!r} -> {str(new)[:80]!r}'
+    return None
